@@ -7,9 +7,10 @@
 package off
 
 //@ ufunc dims0(m *mat.Dense) int
+//@ ufunc dims1(m *mat.Dense) int
 //@ extern func (*gonum.org/v1/gonum/mat.Dense).Dims
 //@   pure
-//@   ensures r == dims0(m) && r >= 0 && c >= 0
+//@   ensures r == dims0(m) && c == dims1(m) && r >= 0 && c >= 0
 
 //@ func (Writer).Close
 //@   trusted
